@@ -72,7 +72,7 @@ def mutate_name(rng, name):
 def run_C15(chk):
     chk.prepare_model(['Cctz.Properties.C15', 'Cctz.Properties.C01'], THEOREMS['C15'] + ['Cctz.C01.fixed_table', 'Cctz.C01.fixed_lookup'])
     exe = chk.harness('san')
-    scale = chk.tier if not chk.broken else 'thorough'
+    scale = chk.tier if not (chk.broken or chk.degraded) else 'thorough'
     if exe is None or not getattr(chk, 'driver_ok', False):
         return chk.finish()
     rng = chk.rng
